@@ -583,7 +583,7 @@ impl Property for C07 {
     }
     fn run_tape(&self, tape: &[u8], ctx: &mut Ctx) -> Result<(), Failure> {
         let mut t = Tape::new(tape);
-        let p = gen_packet(&mut t);
+        let p = gen_packet_big(&mut t);
         if ctx.counting {
             let r = refdec::decode(p.start, &p.bytes, false);
             classify("", &p, &r, ctx);
